@@ -560,7 +560,8 @@ def load_known_findings():
 TRANSLATED = {
     "C01": ["tr_filtermatch.py -> Gen/GenFilterMatch.v (the matches methods of the filter classes, _RunFilter._match, applies_to_bench / applies_to_tag, "
             "filter_constructors_as_documented)"],
-    "C02": ["tr_important.py -> Gen/GenImportant.v (prefer_important, is_marked_important, remove_important)"],
+    "C02": ["tr_important.py -> Gen/GenImportant.v (prefer_important, is_marked_important, remove_important)",
+            "tr_settings.py -> Gen/GenSettings.v (ExpRunDetails.compile / default / resolve_override_and_important over the records of Model/Settings.v)"],
     "C03": ["tr_facts.py -> Gen/GenFactsBuild.v (execute_run_steps, plan_branch)",
             "tr_facts.py -> Gen/GenFactsLaunch.v (launch_passes_cmdline_env_cwd, popen_gets_what_run_got, run_env_is_expanded_configured_env)"],
     "C04": ["tr_termination.py -> Gen/GenTermination.v (TerminationCheck)",
